@@ -11,6 +11,7 @@ import os
 from ..src import find_all, expr_text, pat_text, lit_int
 from ..consteval import Interp, Frame, Unsupported, StructV, EnumV, NONE, some, copyv, emissions, strip_try, pat_names
 from .c20 import truecolor_template, unref, block_value
+from .. import grammar, regex
 
 ENC = "src/encoder.rs"
 DEC = "src/decoder.rs"
@@ -26,9 +27,15 @@ CLAIM = {
             "table is injective, name-consistent and complete, and apply - evaluated on all 192 valid attribute states x 2 colour states for "
             "every single-field modification and all set/clear combinations of the four flags - sets or clears exactly that attribute and "
             "reset yields the default face; every XAssign operator of FaceAttrs equals `*self = *self X rhs` on all 256x256 raw values; "
-            "pack/unpack/underline/From and the bit constants realise the 3-bit-style + flags<<3 layout on all 8-bit values. NOT decided: "
-            "arbitrary SGR histories and chunked writes through TTYCellWriter, the decoder automaton that frames ESC[..m, ECMA-48 conformance of the code numbers (bold-off is 21 on both sides).",
-    "technique": "finite match/array table extraction and agreement, exhaustive denotational evaluation of small pure functions over finite domains (src.json expression trees)",
+            "pack/unpack/underline/From and the bit constants realise the 3-bit-style + flags<<3 layout on all 8-bit values; Char(c) is written verbatim and "
+            "(UTF8-LANG, 28 instances: 9 RFC 3629 ABNF rows x 3 decoders + the command automaton) the UTF-8 grammar as built for TTYCommandDecoder, Utf8Decoder "
+            "and TTYEventDecoder accepts the encoding of every Unicode scalar value that decoder must read back (command decoder: all but ESC, also accepted by "
+            "the whole command automaton; Utf8Decoder: all; event decoder: printable ASCII and every multi-byte character) - decided by language inclusion of the "
+            "RFC 3629 rows in the grammar's DFA, lead byte by lead byte. NOT decided: "
+            "arbitrary SGR histories and chunked writes through TTYCellWriter, the decoder automaton that frames ESC[..m and which matcher wins on a character, "
+            "ECMA-48 conformance of the code numbers (bold-off is 21 on both sides).",
+    "technique": "finite match/array table extraction and agreement, exhaustive denotational evaluation of small pure functions over finite domains (src.json expression trees); "
+                 "grammar extraction (engine E2) + DFA language inclusion against the RFC 3629 byte-sequence table",
     "design_ref": "DESIGN.md §5 C06",
 }
 
@@ -300,6 +307,172 @@ class DecoderTable:
         return eff
 
 
+# ------------------------------------------------------------------------------------------ characters: the UTF-8 language
+# RFC 3629 section 4, "Syntax of UTF-8 Byte Sequences" (ABNF UTF8-1 .. UTF8-4): one row per alternative, lead-byte range followed by the
+# continuation-byte ranges; together the rows are exactly the encodings of the Unicode scalar values U+0000..U+D7FF, U+E000..U+10FFFF.
+_TAIL = (0x80, 0xBF)
+RFC3629_ROWS = [
+    ("UTF8-1", [(0x00, 0x7F)]),
+    ("UTF8-2", [(0xC2, 0xDF), _TAIL]),
+    ("UTF8-3/E0", [(0xE0, 0xE0), (0xA0, 0xBF), _TAIL]),
+    ("UTF8-3/E1-EC", [(0xE1, 0xEC), _TAIL, _TAIL]),
+    ("UTF8-3/ED", [(0xED, 0xED), (0x80, 0x9F), _TAIL]),
+    ("UTF8-3/EE-EF", [(0xEE, 0xEF), _TAIL, _TAIL]),
+    ("UTF8-4/F0", [(0xF0, 0xF0), (0x90, 0xBF), _TAIL, _TAIL]),
+    ("UTF8-4/F1-F3", [(0xF1, 0xF3), _TAIL, _TAIL, _TAIL]),
+    ("UTF8-4/F4", [(0xF4, 0xF4), (0x80, 0x8F), _TAIL, _TAIL]),
+]
+ASCII = regex.cls_range(0x00, 0x7F)
+ESC = 1 << 0x1B
+# one-byte characters each consumer has to read back as a character (multi-byte rows are required of every consumer):
+#   command decoder  - C06: "all characters except ESC";  Utf8Decoder (plain text writers) - every scalar value;
+#   event decoder    - printable ASCII (control bytes are keys there, decoder.rs documents the UTF8Matcher as "one-byte codes are restricted to the printable set")
+ONE_BYTE = {"command": ASCII & ~ESC, "utf8decoder": ASCII, "event": regex.cls_range(0x20, 0x7E)}
+
+
+def _row_dfa(classes):
+    return regex.compile_rx(regex.Rx("seq", [regex.Rx("pred", (), m) for m in classes]))
+
+
+def _scalar(word):
+    """code point denoted by a well-formed RFC 3629 sequence"""
+    return ord(bytes(word).decode("utf-8"))
+
+
+def _span_text(bs):
+    """'f4' | 'e1..ec' | 'c2,c5' for a sorted list of byte values"""
+    if not bs:
+        return ""
+    if bs == list(range(bs[0], bs[-1] + 1)):
+        return "%02x" % bs[0] if len(bs) == 1 else "%02x..%02x" % (bs[0], bs[-1])
+    return ",".join("%02x" % b for b in bs[:4]) + ("+%d" % (len(bs) - 4) if len(bs) > 4 else "")
+
+
+def utf8_row_gaps(d, classes):
+    """lead bytes of one RFC 3629 row some of whose sequences the DFA `d` does not accept: ([dead lead bytes], [(lead, witness word)] for
+    leads that are live but lose some continuation), decided by language inclusion (product search), one lead byte at a time"""
+    dead, partial = [], []
+    lead = classes[0]
+    while lead:
+        w = regex.subset_witness(_row_dfa([lead] + list(classes[1:])), d)
+        if w is None:
+            break
+        b = w[0]
+        if d.step(d.start, b) < 0:
+            dead.append(b)
+        else:
+            partial.append((b, bytes(w)))
+        lead &= ~(1 << b)
+    return dead, partial
+
+
+def utf8_consumers(src, gs):
+    """[(consumer, grammar name, role)] - which extracted UTF-8 grammar each decoder runs; problems as [(anchor, text)]"""
+    out, problems = [], []
+    for which, dec in (("command", "TTYCommandDecoder"), ("event", "TTYEventDecoder")):
+        regs = [r for r in grammar.registrations(src, which) if r.impl == "UTF8Matcher"]
+        if len(regs) != 1:
+            problems.append((dec + "-utf8-matcher", "%s registers %d UTF8Matcher instances (expected exactly one)" % (dec, len(regs))))
+            continue
+        out.append((dec, regs[0].name, which))
+    # the compiled helper static(s) that Utf8Decoder steps
+    helpers = {n for n, g in gs.items() if g.kind == "helper"}
+    used = []
+    for (f, s, tr, item, t) in src.fns:
+        if t or s is None or grammar.base_name(s) != "Utf8Decoder":
+            continue
+        for n in find_all(item["body"], lambda n: n.get("k") == "path" and n["p"] in helpers):
+            if n["p"] not in used:
+                used.append(n["p"])
+    if len(used) != 1:
+        problems.append(("Utf8Decoder-automaton", "Utf8Decoder steps %d compiled helper automata (expected exactly one): %s" % (len(used), used)))
+    else:
+        out.append(("Utf8Decoder", used[0], "utf8decoder"))
+    return out, problems
+
+
+def utf8_lang(ctx):
+    src = ctx.src
+    ctx.rule("UTF8-LANG", "the as-built UTF-8 grammar each decoder runs accepts the RFC 3629 encoding of every Unicode scalar value the decoder has to read back "
+                          "(language inclusion per ABNF row; command decoder: all but ESC, also in the whole command automaton)", floor=28)
+    try:
+        gs = grammar.extract(src)
+        consumers, problems = utf8_consumers(src, gs)
+    except grammar.Unfoldable as ex:
+        ctx.anchor("UTF8-LANG", "grammar-extraction", str(ex))
+        return False
+    for p in grammar.extraction_problems(src):
+        ctx.anchor("UTF8-LANG", "grammar-extraction", p)
+    for a, text in problems:
+        ctx.anchor("UTF8-LANG", a, text)
+    ok_all = not problems
+    for dec, gname, role in consumers:
+        g = gs.get(gname)
+        if g is None or g.rx is None:
+            ctx.anchor("UTF8-LANG", "grammar-" + gname, "grammar %s not folded: %s" % (gname, g.problem if g else "not extracted"))
+            ok_all = False
+            continue
+        try:
+            d = g.asbuilt_dfa
+        except grammar.Unfoldable as ex:
+            ctx.anchor("UTF8-LANG", "grammar-" + gname, str(ex))
+            ok_all = False
+            continue
+        site = [g.site] if g.site else [DEC]
+        for row, ranges in RFC3629_ROWS:
+            classes = [regex.cls_range(lo, hi) for lo, hi in ranges]
+            if len(classes) == 1:
+                classes = [classes[0] & ONE_BYTE[role]]
+            dead, partial = utf8_row_gaps(d, classes)
+            ctx.instance("UTF8-LANG", {"decoder": dec, "grammar": gname, "row": row, "required": [regex.cls_text(m) for m in classes],
+                                       "missing_leads": ["%02x" % b for b in dead], "partial_leads": ["%02x" % b for b, _ in partial]})
+            L = len(classes)
+            if dead:
+                lo = _scalar([dead[0]] + [rg[0] for rg in ranges[1:]])
+                hi = _scalar([dead[-1]] + [rg[1] for rg in ranges[1:]])
+                ctx.violation("UTF8-LANG", gname, "%d-byte-lead-%s" % (L, _span_text(dead)),
+                              "%s (grammar %s) does not accept lead byte(s) %s of RFC 3629 row %s: %s not read back as characters (%d lead bytes), e.g. %s"
+                              % (dec, gname, _span_text(dead), row,
+                                 "U+%04X" % lo if L == 1 and len(dead) == 1 else "U+%04X..=U+%04X" % (lo, hi) if dead == list(range(dead[0], dead[-1] + 1)) else "characters from U+%04X" % lo,
+                                 len(dead), regex.bytes_text(bytes([dead[0]] + [rg[0] for rg in ranges[1:]]))),
+                              sites=site, detail={"missing_lead_bytes": dead, "row": row})
+            if partial:
+                leads = [b for b, _ in partial]
+                w = partial[0][1]
+                ctx.violation("UTF8-LANG", gname, "%d-byte-continuation-after-%s" % (L, _span_text(leads)),
+                              "%s (grammar %s) accepts lead byte(s) %s but not every continuation RFC 3629 row %s allows: e.g. %s = U+%04X is not accepted"
+                              % (dec, gname, _span_text(leads), row, regex.bytes_text(w), _scalar(w)), sites=site, detail={"witness": list(w), "row": row})
+            if dead or partial:
+                ok_all = False
+    # the whole command automaton (what TTYCommandDecoder steps): the union as written in MatcherAutomata::new still accepts every character
+    cmd = [c for c in consumers if c[2] == "command"]
+    st = grammar.extraction(src).statics_of.get("command")
+    ug = gs.get(st[1]) if st else None
+    if not cmd or ug is None or ug.rx is None:
+        ctx.anchor("UTF8-LANG", "command-automaton", "the compiled automaton of TTYCommandDecoder was not extracted")
+        return False
+    try:
+        ud = ug.asbuilt_dfa
+    except grammar.Unfoldable as ex:
+        ctx.anchor("UTF8-LANG", "command-automaton", str(ex))
+        return False
+    first = None
+    for row, ranges in RFC3629_ROWS:
+        classes = [regex.cls_range(lo, hi) for lo, hi in ranges]
+        if len(classes) == 1:
+            classes = [classes[0] & ONE_BYTE["command"]]
+        w = regex.subset_witness(_row_dfa(classes), ud)
+        if w is not None and first is None:
+            first = (row, bytes(w))
+    ctx.instance("UTF8-LANG", {"decoder": "TTYCommandDecoder", "automaton": ug.name, "accepts_every_scalar_but_ESC": first is None})
+    if first is not None:
+        ok_all = False
+        ctx.violation("UTF8-LANG", ug.name, "%d-byte-lead-%02x" % (len(first[1]), first[1][0]),
+                      "the command automaton %s does not accept %s = U+%04X (RFC 3629 row %s)" % (ug.name, regex.bytes_text(first[1]), _scalar(first[1]), first[0]),
+                      sites=[ug.site] if ug.site else [DEC], detail={"witness": list(first[1])})
+    return ok_all
+
+
 # ------------------------------------------------------------------------------------------ run
 def run(ctx):
     src = ctx.src
@@ -311,7 +484,9 @@ def run(ctx):
         "parameter follows it; (b) FaceModify::apply's (update, flag) table is injective, name-consistent and complete; apply is evaluated for "
         "every single-field modification on all 192 valid attribute states x 2 colour states against SGR set/clear semantics; (c) each XAssign "
         "impl of FaceAttrs equals `*self = *self X rhs` on all 256x256 raw values; (d) pack/unpack/underline/constants bit layout over all 8-bit "
-        "values. NOT decided: arbitrary SGR histories and chunked writes through TTYCellWriter (fold structure is C03's), the decoder's automaton, "
+        "values; (e) Char(c) is written verbatim and the as-built UTF-8 grammar of the command decoder (all characters except ESC, also in the whole command "
+        "automaton), of Utf8Decoder (all) and of the event decoder (printable ASCII + multi-byte) contains every RFC 3629 well-formed sequence, row by row "
+        "and lead byte by lead byte (UTF8-LANG). NOT decided: arbitrary SGR histories and chunked writes through TTYCellWriter (fold structure is C03's), the decoder's automaton, "
         "numeric overflow of colour components, conformance of the code numbers to ECMA-48 (the property is about the library's own output).")
     ctx.assume("FaceAttrs raw values stay below 2^8 (3 underline bits + 5 flag bits); integer operations in the evaluated expressions do not overflow u16 on that domain")
     finite_ok = True
@@ -824,5 +999,7 @@ def run(ctx):
         ctx.instance("CHAR-VERBATIM", {"items": [i[0] for i in items], "ok": good})
         if not good:
             ctx.violation("CHAR-VERBATIM", "TTYEncoder::encode/Char", "template", "Char(c) is not written as exactly the character", sites=[ENC])
+    # ... and the decoders' UTF-8 grammar admits the encoding of every character
+    utf8_lang(ctx)
 
     ctx.exhaustive = finite_ok
